@@ -415,6 +415,37 @@ def check_name(name, optional=True):
         raise Expect(T_NAME)
 
 
+def foreign_group(text):
+    """a raw pattern that is, as a whole, one special group other than (?:..), (?i:..), a named group, a reference,
+    a conditional, a comment or a lookaround - e.g. (?s:..), (?-i:..), (?ims:..), (?>..)"""
+    if not re.match(r'\(\?(?!:|i:|P<|P=|\(|#|=|!|<)', text):
+        return False
+    p = C.parse(text)
+    return (not p.error) and len(p.tree) == 1 and p.groups == sum(1 for _ in re.finditer(r'\((?!\?)|\(\?P<', text)) and text.endswith(')') and _one_group(text)
+
+
+def _one_group(text):
+    depth = 0
+    i = 0
+    while i < len(text):
+        ch = text[i]
+        if ch == '\\':
+            i += 2
+            continue
+        if ch == '[':
+            j = text.find(']', i + 2)
+            i = (j if j > 0 else len(text)) + 1
+            continue
+        if ch == '(':
+            depth += 1
+        elif ch == ')':
+            depth -= 1
+            if depth == 0 and i != len(text) - 1:
+                return False
+        i += 1
+    return depth == 0
+
+
 def capture(x, name=None):
     ambiguous = False
     try:
@@ -427,6 +458,12 @@ def capture(x, name=None):
         ambiguous = True
     if x.k == 'Empty':
         return x
+    if x.k == 'Raw' and foreign_group(x.text):
+        # a group the library does not know how to convert (other inline flags, atomic): it can only be wrapped
+        out = N('Cap', x=x, name=name)
+        if ambiguous:
+            raise Expect(T_NAME, also=out)
+        return out
     if x.k == 'Raw':
         raise Unspec('capture-of-raw')
     if x.k == 'Cap':
@@ -443,6 +480,8 @@ def capture(x, name=None):
 def group(x, ci=False):
     if x.k == 'Empty':
         return x
+    if x.k == 'Raw' and foreign_group(x.text):
+        return N('Grp', x=x, ci=bool(ci))
     if x.k == 'Raw':
         raise Unspec('group-of-raw')
     if x.k in ('Cap', 'Grp'):
